@@ -20,7 +20,7 @@ func init() {
 	register(&explore.Prop{
 		ID: "C14", Level: levelMC, Explorer: "E2 path mode (build histories, deterministic pool, owned map order) + E4 schedule explorer (concurrent builders)",
 		Instr: true,
-		Rule: "instrumented build: sync.Pool replaced by a deterministic LIFO pool, every `range` over a map iterates in an order the explorer chooses. Histories: a menu of 15 batches chosen to leave different residue in the pooled builder (more/fewer fields, terms, postings, locations; doc values on/off; larger then smaller; composite fields naming the same field under different schemas; a 41-field batch whose later documents carry only 2-3 of the fields; a batch in which every field including `_id` has doc values; a 300-word dictionary of pseudo-random words; a build that FAILS with an unknown chunk mode); every history of length <=3 (thorough <=4) followed by every target, under chunk modes {1025, 2}; HIST-LARGE: histories [big], [big, m] (thorough also [m, big]) with big = a 1100-document batch or a 5000-word dictionary (thorough also 2100 documents) followed by every target; HIST-HUGE: histories [huge], [m, huge] with huge = one document of 90000 distinct terms, followed by every target and by dictionaries of 5000, 2000 and 70 001 words; map order: for every map-range site reached, reverse and rotated orders as single deviations; schedules: 2 threads x 2 builds and 3 threads x 1 build of different batches at preemption bound 2 (scheduling points at pool/once operations and written package-level state); " +
+		Rule: "instrumented build: sync.Pool replaced by a deterministic LIFO pool, every `range` over a map iterates in an order the explorer chooses. Histories: a menu of 15 batches chosen to leave different residue in the pooled builder (more/fewer fields, terms, postings, locations; doc values on/off; larger then smaller; composite fields naming the same field under different schemas; a 41-field batch whose later documents carry only 2-3 of the fields; a batch in which every field including `_id` has doc values; a 300-word dictionary of pseudo-random words; a build that FAILS with an unknown chunk mode); every history of length <=3 (thorough <=4) followed by every target, under chunk modes {1025, 2}; HIST-LARGE: histories [big], [big, m] (thorough also [m, big]) with big = a 1100-document batch or a 5000-word dictionary (thorough also 2100 documents) followed by every target; HIST-HUGE: histories [huge], [m, huge] with huge = one document of 140000 distinct terms (beyond 2^16 and 2^17 postings lists), followed by every target and by dictionaries of 5000, 2000, 70 001 and 135 000 words; map order: for every map-range site reached, reverse and rotated orders as single deviations; schedules: 2 threads x 2 builds and 3 threads x 1 build of different batches at preemption bound 2 (scheduling points at pool/once operations and written package-level state); " +
 			"oracle: bytes(target | history, order, schedule) == bytes(target | cold start, sorted order, alone); non-trivial = the pool held a recycled builder when the target build started (VerifInterimPool + PoolLen) / schedule has a preemption",
 		Assumptions: []string{"the deterministic pool models sync.Pool as LIFO reuse; the real pool may also drop objects (equivalent to a cold start, which is the baseline)", "bounded histories/menus (DESIGN.md 5 C14)", "preemption bound 2, <=3 threads; statement-level atomicity"},
 		Budget:      qBudget, Run: runC14,
@@ -297,15 +297,15 @@ func runC14(c *explore.Ctx) {
 				}
 			}
 		}
-		// HIST-HUGE: a builder first used for (or later fed) a batch of 90000 distinct terms - anything
+		// HIST-HUGE: a builder first used for (or later fed) a batch of 140000 distinct terms - anything
 		// the builder sizes by its first batch and keeps (hash tables, registries, arenas) - followed
 		// by the menu targets and two larger dictionaries
 		if mode == 1025 {
-			huge := c14Terms(90000)
+			huge := c14Terms(140000)
 			// the third extra target is huge too (more than 65 536 postings lists, other words, another
 			// distribution over the two documents): what the first huge batch left beyond any
 			// threshold of the recycled builder meets a second batch that reaches as far
-			extra := [][]model.Doc{c14Terms(5000), c14Terms(2000), c14TermsP(70001, 4)}
+			extra := [][]model.Doc{c14Terms(5000), c14Terms(2000), c14TermsP(70001, 4), c14TermsP(135000, 5)}
 			extraBase := make([][]byte, len(extra))
 			for i, b := range extra {
 				verifrt.ResetPools()
@@ -343,7 +343,7 @@ func runC14(c *explore.Ctx) {
 						tb, want = extra[-target-1], extraBase[-target-1]
 					}
 					got, err := buildBytes(tb, mode)
-					cas := fmt.Sprintf("%s #%d history=%v (-1 = a batch of 90000 distinct terms) target=%d (negative: dictionaries of 5000 / 2000 / 70001 words)", scope, my, h, target)
+					cas := fmt.Sprintf("%s #%d history=%v (-1 = a batch of 140000 distinct terms) target=%d (negative: dictionaries of 5000 / 2000 / 70001 / 135000 words)", scope, my, h, target)
 					if err != nil {
 						c.Violate(scope, my, sigOf("C14", "history", "error: "+err.Error()), err.Error(), cas)
 					} else if !bytes.Equal(got, want) {
